@@ -377,7 +377,14 @@ func init() {
 				// untouched: only a target still holding its zero value receives
 				// the pure decoding
 				pristine := len(al.Loc.Path) == 0 && al.Loc.Obj.zeroInit != nil && st.mem[al.Loc.Obj] == al.Loc.Obj.zeroInit
-				nv := e.merge(ok, dec, e.havocLike(old, "asn1_partial"))
+				// the decoded value is a fresh term X with `err == nil ==> X ==
+				// asn1Decode_T(data)`: everything read from the target is then a
+				// function of X (one alternative, canonical sequence terms), and
+				// equals what a contract says about asn1decode(...) by congruence
+				xv := c.Fresh("asn1_val", sortOf(T))
+				e.assume(st, c.Implies(ok, c.Eq(xv, c.App("asn1Decode_"+sn, sortOf(T), data))))
+				nv := e.fromTerm(T, xv, "asn1")
+				_ = dec
 				if !pristine {
 					nv = e.havocLike(old, "asn1_merged")
 					e.Externs["encoding/asn1.Unmarshal into a target that may already hold data: result treated as an arbitrary merge"] = true
